@@ -19,7 +19,7 @@ Theorem C10_cfg_sites_per_fork :
 Proof. vm_compute; reflexivity. Qed.
 
 (* --- tie: the assignment / read sites of Vm.fiber and Vm.unsafe_fiber are those the fiber model is written
-   after (execute, load_fiber, unload_fiber, reset_stack, active_fiber, active_fiber_mut, new). --- *)
+   after (execute, load_fiber, unload_fiber, is_loading_module, reset_stack, capture_upvalue, active_fiber, active_fiber_mut, new). --- *)
 Theorem C10_fiber_sites_known : fiber_sites_match YVGen.FiberSites.fiber_sites = true.
 Proof. vm_compute; reflexivity. Qed.
 
@@ -68,6 +68,9 @@ Theorem C10_fiber_repr_equiv : forall ops s, ptr_ok s ->
   ~ In FPanic (fst (frun true ops s)) ->
   frun false ops s = frun true ops s /\ ~ In FUB (fst (frun false ops s)).
 Proof. exact fiber_repr_equiv. Qed.
+Theorem C10_capture_owner_is_active : forall cell ops a o s',
+  fstep cell OCapture (snd (frun cell ops f_init)) = (FCaptured a o, s') -> a = o.
+Proof. exact capture_owner_is_active. Qed.
 Theorem C10_fiber_ptr_strict_refuted : exists cell ops,
   let s := snd (frun cell ops f_init) in unsafe_fiber s <> fiber s /\ fiber s = None.
 Proof. exact fiber_ptr_strict_refuted. Qed.
@@ -109,6 +112,7 @@ Print Assumptions C10_stack_checked_diverges_only_on_misuse.
 Print Assumptions C10_fiber_ptr_inv.
 Print Assumptions C10_fiber_ptr_eq_after_ok.
 Print Assumptions C10_fiber_repr_equiv.
+Print Assumptions C10_capture_owner_is_active.
 Print Assumptions C10_fiber_ptr_strict_refuted.
 Print Assumptions C10_gc_config_irrelevant.
 Print Assumptions C10_gc_config_relevant_today_refuted.
